@@ -1388,3 +1388,16 @@ def _witness_stale(mech):
 
 
 WITNESSES.update({f"C02:{m}:stale-calibration": _witness_stale(m) for m in _STALE})
+
+
+def generate(ctx):
+    """translator tie: the closed-form calibrations are re-read from /repo's AST on every run, translated to Lean terms
+    over ℝ and proved equal to the model's (harness/anchors.py)"""
+    from .. import anchors
+    from ..shim import REPO
+    r = anchors.build(REPO, "C02", ["DPL.Model.Calibration"], [s for s in anchors.c02_specs() if not s.get("disabled")],
+                      opens="DPL.Cont")
+    ctx.count("formula_anchors", r["obligations"])
+    if r["errors"]:
+        r["error"] = "; ".join(r["errors"])
+    return r
